@@ -1144,9 +1144,110 @@ impl Exec {
                 self.store.set_fault(at);
                 vec![json!({"e": "note", "what": "fault", "at": op["at"], "mode": op["mode"]})]
             }
+            "acct" => vec![self.acct(op)],
             "note" => vec![op.clone()],
             other => panic!("unknown step {other}"),
         }
+    }
+}
+
+fn pid(r: u32, i: u32) -> u64 {
+    (u64::from(r) << 20) | u64::from(i)
+}
+
+/// order-0 expansion of a page list, as ids
+fn expand(pages: &[redb::verif::Page]) -> Vec<u64> {
+    let mut out = vec![];
+    for &(r, i, o) in pages {
+        let n = 1u32 << o;
+        for j in 0..n {
+            out.push(pid(r, i * n + j));
+        }
+    }
+    out
+}
+
+fn expand_map(m: &[(u64, Vec<redb::verif::Page>)]) -> Vec<J> {
+    m.iter().map(|(t, p)| json!([t, expand(p)])).collect()
+}
+
+impl Exec {
+    /// Page accounting at a transaction boundary (no write transaction live): what the allocator
+    /// holds, who owns it, what is pinned by whom.  Uses a probe write transaction that is aborted.
+    fn acct(&mut self, op: &J) -> J {
+        assert!(self.wtx.is_none(), "acct needs a transaction boundary");
+        let db = self.db.as_ref().unwrap();
+        let mut ev = json!({"e": "acct", "settled": op.get("settled").and_then(|b| b.as_bool()).unwrap_or(false)});
+        let tracker = db.verif_tracker();
+        let hdr = db.verif_header();
+        let wt = match db.begin_write() {
+            Ok(wt) => wt,
+            Err(e) => {
+                ev["unavailable"] = er(e);
+                return ev;
+            }
+        };
+        let probe_id = wt.verif_id();
+        let acc = wt.verif_accounting();
+        let _ = wt.abort();
+        let acc = match acc {
+            Ok(a) => a,
+            Err(e) => {
+                ev["unavailable"] = er(e);
+                return ev;
+            }
+        };
+        let Some(allocated) = acc.allocated.as_ref() else {
+            ev["unavailable"] = json!({"err": "NoAllocatorState"});
+            return ev;
+        };
+        ev["alloc"] = json!(allocated.iter().map(|(r, i)| pid(*r, *i)).collect::<Vec<u64>>());
+        ev["region_lens"] = json!(acc.region_lens);
+        ev["data"] = json!(expand(&acc.data_tree));
+        ev["sys"] = json!(expand(&acc.system_tree));
+        ev["dfreed"] = json!(expand_map(&acc.data_freed));
+        ev["sfreed"] = json!(expand_map(&acc.system_freed));
+        ev["atbl"] = json!(expand_map(&acc.data_allocated));
+        ev["unp_pages"] = json!(expand(&acc.unpersisted_pages));
+        ev["unp_allocs"] = json!(expand_map(&acc.unpersisted_allocations));
+        ev["unp_freed"] = json!(expand_map(&acc.unpersisted_data_freed));
+        ev["post"] = json!(expand(&acc.post_commit_allocations));
+        ev["needs_repair"] = json!(acc.needs_repair);
+        ev["probe_id"] = json!(probe_id);
+        let (dd, ds) = db.verif_durable_pages().unwrap_or_default();
+        ev["durable_data"] = json!(expand(&dd));
+        ev["durable_sys"] = json!(expand(&ds));
+        let mut readers = vec![];
+        let mut names: Vec<&String> = self.readers.keys().collect();
+        names.sort();
+        for h in names {
+            let rt = &self.readers[h];
+            readers.push(json!({"h": h, "id": rt.verif_id(), "pages": expand(&rt.verif_pages().unwrap_or_default())}));
+        }
+        ev["readers"] = json!(readers);
+        let mut sps = vec![];
+        let mut names: Vec<&String> = self.sps.keys().collect();
+        names.sort();
+        for s in names {
+            sps.push(json!({"s": s, "pages": expand(&db.verif_savepoint_pages(&self.sps[s]).unwrap_or_default())}));
+        }
+        ev["sps"] = json!(sps);
+        ev["nits"] = json!(self.its.len());
+        ev["tracker"] = json!({
+            "next_sp": tracker.next_savepoint_id, "next_txn": tracker.next_transaction_id,
+            "live_reads": tracker.live_read_transactions.iter().map(|(a, b)| json!([a, b])).collect::<Vec<J>>(),
+            "valid_sps": tracker.valid_savepoints.iter().map(|(a, b)| json!([a, b])).collect::<Vec<J>>(),
+            "pers_sps": tracker.persistent_savepoints,
+            "pending_nd": tracker.pending_non_durable_commits.iter().map(|(a, b)| json!([a, b])).collect::<Vec<J>>(),
+            "unprocessed": tracker.unprocessed_freed_non_durable_commits,
+        });
+        ev["hdr"] = json!({
+            "primary": hdr.primary_slot, "recovery": hdr.recovery_required, "tpc": hdr.two_phase_commit, "from_sec": hdr.read_from_secondary,
+            "txn": [hdr.slots[0].transaction_id, hdr.slots[1].transaction_id],
+            "full_regions": hdr.full_regions, "trailing": hdr.trailing_region_pages, "region_pages": hdr.region_max_data_pages,
+            "backend_len": self.store.len(), "layout_len": hdr.layout_len,
+        });
+        ev
     }
 }
 
